@@ -127,11 +127,13 @@ def path_names(msg):
 
 
 def run(ch, params, decoded=False):
-    knobs = R.draw_knobs(ch)
+    knobs = R.draw_knobs(ch, registries=True)
     prog = progmod.generate(ch, params)
     mode = prog["mode"]
+    if prog.get("py_entry") and knobs["registry"] == "private-opposite":
+        knobs["registry"] = "private"   # Cls.render() binds the root to the default registry, i.e. to the project-wide mode
     w = R.start_world(knobs, mode)
-    stats = {"mode=" + mode: 1}
+    stats = {"mode=" + mode: 1, "registry=" + knobs["registry"]: 1}
     violations = []
     ops_log = []
 
